@@ -65,12 +65,14 @@ def run_np_case(rec, k):
         want = fn(raw, *[(2.0 if f == "power_s2" else x.values if isinstance(x, A) else getattr(x, "magnitude", x)) for x in args], **kw)
         return _compare(res, want, o, [dt], 0.0, f)
     # two operands / sequences / out=
-    rdt = dt if rk in ("arr", "out") else "f8"
+    rdt = dt if rk in ("arr", "out", "qty") else "f8"
     rvals, rarr = values_for(rdt, c["ls"], k + 1)
     rvals = [v if v != 0 else F(3) for v in rvals]
     rarr = np.array([float(v) if rarr.dtype.kind == "f" else int(v) for v in rvals], dtype=rarr.dtype).reshape(rarr.shape)
     if rk == "arr":
         b = A(rarr, unit=UNITSTR[ru])
+    elif rk == "qty":
+        b = rarr * osyris.units(UNITSTR[ru])
     elif rk == "nd1":
         b = rarr
     elif rk == "float":
@@ -134,10 +136,10 @@ def run_np_case(rec, k):
         return "mismatch", f"spec: np.{f} returns, implementation raised {type(raised).__name__}: {raised}", {}
     conv = 1.0
     tol = 0.0
-    if rk == "arr" and o.get("converted"):
+    if rk in ("arr", "qty") and o.get("converted"):
         conv = float(cgs(ru) / cgs(lu))
         tol = unit_tol(lu, ru)
-    elif rk != "arr" and o.get("converted"):
+    elif rk not in ("arr", "qty") and o.get("converted"):
         conv = float(1 / cgs(lu))            # a plain number is a dimensionless quantity: expressed in the (scaled dimensionless) unit of the Array
         tol = unit_tol(lu, lu)
     rraw = rarr * conv if conv != 1.0 else rarr
